@@ -243,24 +243,6 @@ Proof.
   rewrite F, andb_false_r. apply (proj2 (proj2 closed_path_trusts_label)).
 Qed.
 
-(* ---- the index arrays of the source produce the model's pair list (checked by computation, d < 64) ---- *)
-Definition pair_eqb (p q : nat * nat) : bool := Nat.eqb (fst p) (fst q) && Nat.eqb (snd p) (snd q).
-Fixpoint list_eqb {A} (e : A -> A -> bool) (l l' : list A) : bool :=
-  match l, l' with [], [] => true | x :: r, y :: r' => e x y && list_eqb e r r' | _, _ => false end.
-Lemma list_eqb_eq l l' : list_eqb pair_eqb l l' = true -> l = l'.
-Proof.
-  revert l'. induction l as [|[a b] l IH]; intros [|[a' b'] l']; simpl; try discriminate; auto.
-  unfold pair_eqb; simpl. intros H. apply andb_prop in H. destruct H as [H1 H2]. apply andb_prop in H1.
-  destruct H1 as [Ha Hb]. apply Nat.eqb_eq in Ha. apply Nat.eqb_eq in Hb. subst. f_equal. apply IH; auto.
-Qed.
-Lemma ggm_pairs_src_check : forallb (fun d => list_eqb pair_eqb (ggm_pairs_src d) (ggm_pairs d)) (seq 0 64) = true.
-Proof. vm_compute. reflexivity. Qed.
-Theorem ggm_pairs_src_ok d : (d < 64)%nat -> ggm_pairs_src d = ggm_pairs d.
-Proof.
-  intros H. apply list_eqb_eq. pose proof ggm_pairs_src_check as C. rewrite forallb_forall in C.
-  apply C. apply in_seq. lia.
-Qed.
-
 (* the normalised Pauli basis is the Gell-Mann basis for d = 2 *)
 Lemma pauli1_is_ggm2 : pauli1 = ggm_basis RO 2.
 Proof.
